@@ -14,7 +14,7 @@ import time
 from lib import *
 
 WHAT = "a directory scrut created remains after exit / documents share a working directory / a test case did not see the documented environment"
-VARS = ["TESTDIR", "TESTFILE", "TESTSHELL", "TMPDIR", "LANG", "LANGUAGE", "LC_ALL", "TZ", "COLUMNS", "CDPATH", "GREP_OPTIONS", "SCRUT_TEST",
+VARS = ["TESTDIR", "TESTFILE", "TESTSHELL", "SHELL", "TMPDIR", "LANG", "LANGUAGE", "LC_ALL", "TZ", "COLUMNS", "CDPATH", "GREP_OPTIONS", "SCRUT_TEST",
         "TMP", "TEMP", "CRAMTMP"]          # the last three: Cram compatibility only
 SEP = "\x1f"
 
@@ -116,7 +116,7 @@ def experiment(exp_id, scs):
             # the caller's environment sets the documented variables to something else: scrut must neutralise that
             env = dict(os.environ, TMPDIR=tmproot, RUN_LOG=os.path.join(pdir, "run.log"), NO_COLOR="1",
                        CDPATH="/polluted-cdpath", GREP_OPTIONS="--polluted", LANG="de_DE.UTF-8", LANGUAGE="de", LC_ALL="de_DE.UTF-8",
-                       TZ="Asia/Tokyo", COLUMNS="7", TESTDIR="/polluted", TESTFILE="polluted", TESTSHELL="/polluted", SCRUT_TEST="polluted")
+                       TZ="Asia/Tokyo", COLUMNS="7", TESTDIR="/polluted", TESTFILE="polluted", TESTSHELL="/polluted", SHELL="/polluted-login-shell", SCRUT_TEST="polluted")
             env.pop("SCRUT_VERIF_TRACE", None)
             run_cwd = pdir
             if sc["env"] == "relpath":
@@ -186,6 +186,7 @@ def experiment(exp_id, scs):
                     continue
                 want = {"TESTDIR": exp["TESTDIR"], "TESTFILE": exp["TESTFILE"], "TESTSHELL": exp.get("TESTSHELL") or bash, "LANG": "C", "LANGUAGE": "C", "LC_ALL": "C",
                         "TZ": "GMT", "COLUMNS": "80", "CDPATH": "", "GREP_OPTIONS": "", "SCRUT_TEST": exp["SCRUT_TEST"]}
+                want["SHELL"] = want["TESTSHELL"]         # documented: "SHELL: Same as TESTSHELL"
                 if sc["env"] == "compat":
                     del want["SCRUT_TEST"]          # documented for the per-test executor only
                     # Cram compatibility: TMP and TEMP equal TMPDIR; CRAMTMP is the directory above the working directory
@@ -206,7 +207,7 @@ def experiment(exp_id, scs):
                 if len(shared_entries) < 1:
                     bad_env.append("shared:no-log")
                 for tid, e in shared_entries:
-                    want = {"TESTSHELL": bash, "LANG": "C", "LANGUAGE": "C", "LC_ALL": "C", "TZ": "GMT", "COLUMNS": "80", "CDPATH": "", "GREP_OPTIONS": ""}
+                    want = {"TESTSHELL": bash, "SHELL": bash, "LANG": "C", "LANGUAGE": "C", "LC_ALL": "C", "TZ": "GMT", "COLUMNS": "80", "CDPATH": "", "GREP_OPTIONS": ""}
                     wrong = sorted(v for v, w in want.items() if e[v] != w)
                     if (e["TESTDIR"], e["TESTFILE"]) not in pr["shared_pairs"]:
                         wrong.append("TESTDIR")
@@ -235,7 +236,7 @@ def experiment(exp_id, scs):
 def run(prop, tier, replay=None):
     t0 = time.time()
     work = workdir(f"{prop}-{tier}")
-    build_s = build(need_scrut_bin=True)
+    build_s = build(need_scrut_bin=True, allow_broken_harness=True)      # (this check drives only the scrut binary)
     V = Verdicts(prop)
     s = seed()
     cov = {}
